@@ -776,6 +776,8 @@ def search_failing(prop, exes, known, seed, tier, budget_s=90):
             best = None
             for c, line in zip(cases, il):
                 e, s = split_legs(line)
+                e = e.split(" # ", 1)[0]      # free-form detail after " # " is not compared (same rule as analyse())
+                s = s.split(" # ", 1)[0]
                 if s != "na" and e != s and c.split(" ", 1)[0] not in known_ops:
                     if best is None or len(c) < len(best[0]):
                         best = (c, e, s)
